@@ -832,3 +832,155 @@ impl Default for R {
         R(0)
     }
 }
+
+// ---------------------------------------------------------------------------------------------------------------
+// "does this type implement that trait?" as a compile-time constant (inherent associated const shadows the trait's
+// one when its bounds hold). Used by the C03 instantiation programs: the verdict is rustc's trait solver's.
+// ---------------------------------------------------------------------------------------------------------------
+pub trait NotImpl {
+    const V: bool = false;
+}
+impl<T: ?Sized> NotImpl for T {}
+macro_rules! probe {
+    ($name:ident, $($b:tt)*) => {
+        pub struct $name<T: ?Sized>(core::marker::PhantomData<T>);
+        impl<T: ?Sized + $($b)*> $name<T> {
+            pub const V: bool = true;
+        }
+    };
+}
+probe!(IsClone, Clone);
+probe!(IsCopy, Copy);
+probe!(IsDebug, core::fmt::Debug);
+probe!(IsDefault, Default);
+probe!(IsPartialEq, PartialEq);
+probe!(IsEq, Eq);
+probe!(IsPartialOrd, PartialOrd);
+probe!(IsOrd, Ord);
+probe!(IsHash, core::hash::Hash);
+pub struct IsAddVV<T>(core::marker::PhantomData<T>);
+impl<T: core::ops::Add<T, Output = T>> IsAddVV<T> { pub const V: bool = true; }
+pub struct IsNegV<T>(core::marker::PhantomData<T>);
+impl<T: core::ops::Neg<Output = T>> IsNegV<T> { pub const V: bool = true; }
+pub struct IsAddAssignV<T>(core::marker::PhantomData<T>);
+impl<T: core::ops::AddAssign<T>> IsAddAssignV<T> { pub const V: bool = true; }
+pub struct IsAddVR<T>(core::marker::PhantomData<T>);
+impl<T> IsAddVR<T> where T: for<'x> core::ops::Add<&'x T, Output = T> { pub const V: bool = true; }
+pub struct IsAddRV<T>(core::marker::PhantomData<T>);
+impl<T> IsAddRV<T> where for<'x> &'x T: core::ops::Add<T, Output = T> { pub const V: bool = true; }
+pub struct IsAddRR<T>(core::marker::PhantomData<T>);
+impl<T> IsAddRR<T> where for<'x> &'x T: core::ops::Add<&'x T, Output = T> { pub const V: bool = true; }
+pub struct IsNegR<T>(core::marker::PhantomData<T>);
+impl<T> IsNegR<T> where for<'x> &'x T: core::ops::Neg<Output = T> { pub const V: bool = true; }
+pub struct IsAddAssignR<T>(core::marker::PhantomData<T>);
+impl<T> IsAddAssignR<T> where T: for<'x> core::ops::AddAssign<&'x T> { pub const V: bool = true; }
+
+/// a type parameter with a declared bound and an associated type
+pub trait HasOut {
+    type Out;
+}
+/// probe types: which traits they implement is in the name
+#[derive(Clone, Copy, Debug, Default, PartialEq, Eq, PartialOrd, Ord, Hash)]
+pub struct PAll(pub u8);
+pub struct PNone(pub u8);
+#[derive(Clone)]
+pub struct PClone(pub u8);
+#[derive(Clone, Copy)]
+pub struct PCopy(pub u8);
+#[derive(Debug)]
+pub struct PDebug(pub u8);
+#[derive(Default)]
+pub struct PDefault(pub u8);
+#[derive(PartialEq)]
+pub struct PPartialEq(pub u8);
+#[derive(PartialEq, Eq)]
+pub struct PEq(pub u8);
+#[derive(PartialEq, PartialOrd)]
+pub struct PPartialOrd(pub u8);
+#[derive(PartialEq, Eq, PartialOrd, Ord)]
+pub struct POrd(pub u8);
+#[derive(Hash)]
+pub struct PHash(pub u8);
+pub struct PAddVV(pub u8);
+pub struct PAddRR(pub u8);
+pub struct PNegV(pub u8);
+pub struct PNegR(pub u8);
+pub struct PAddAssignV(pub u8);
+pub struct PAddAssignR(pub u8);
+macro_rules! has_out { ($($t:ident),*) => { $(impl HasOut for $t { type Out = $t; })* } }
+has_out!(PAll, PNone, PClone, PCopy, PDebug, PDefault, PPartialEq, PEq, PPartialOrd, POrd, PHash, PAddVV, PAddRR, PNegV, PNegR, PAddAssignV, PAddAssignR);
+impl core::ops::Add<PAll> for PAll { type Output = PAll; fn add(self, r: PAll) -> PAll { PAll(self.0 ^ r.0) } }
+impl<'x> core::ops::Add<&'x PAll> for PAll { type Output = PAll; fn add(self, r: &PAll) -> PAll { PAll(self.0 ^ r.0) } }
+impl<'x> core::ops::Add<PAll> for &'x PAll { type Output = PAll; fn add(self, r: PAll) -> PAll { PAll(self.0 ^ r.0) } }
+impl<'x, 'y> core::ops::Add<&'y PAll> for &'x PAll { type Output = PAll; fn add(self, r: &PAll) -> PAll { PAll(self.0 ^ r.0) } }
+impl core::ops::AddAssign<PAll> for PAll { fn add_assign(&mut self, r: PAll) { self.0 ^= r.0 } }
+impl<'x> core::ops::AddAssign<&'x PAll> for PAll { fn add_assign(&mut self, r: &PAll) { self.0 ^= r.0 } }
+impl core::ops::Neg for PAll { type Output = PAll; fn neg(self) -> PAll { self } }
+impl<'x> core::ops::Neg for &'x PAll { type Output = PAll; fn neg(self) -> PAll { PAll(self.0) } }
+impl core::ops::Add<PAddVV> for PAddVV { type Output = PAddVV; fn add(self, _r: PAddVV) -> PAddVV { self } }
+impl<'x, 'y> core::ops::Add<&'y PAddRR> for &'x PAddRR { type Output = PAddRR; fn add(self, _r: &PAddRR) -> PAddRR { PAddRR(self.0) } }
+impl core::ops::Neg for PNegV { type Output = PNegV; fn neg(self) -> PNegV { self } }
+impl<'x> core::ops::Neg for &'x PNegR { type Output = PNegR; fn neg(self) -> PNegR { PNegR(self.0) } }
+impl core::ops::AddAssign<PAddAssignV> for PAddAssignV { fn add_assign(&mut self, _r: PAddAssignV) {} }
+impl<'x> core::ops::AddAssign<&'x PAddAssignR> for PAddAssignR { fn add_assign(&mut self, _r: &PAddAssignR) {} }
+
+// marker traits and probe types for the bound(..) resolution programs (C04): PMall has every marker, PMx<k> every marker but Mk<k>, PStd the std traits but no marker; a marker implies the std traits the generated bodies need
+macro_rules! mk_traits { ($($m:ident),*) => { $(pub trait $m: Clone + Copy + core::fmt::Debug + Default + PartialEq + PartialOrd + core::hash::Hash {})* } }
+mk_traits!(Mk0, Mk1, Mk2, Mk3, Mk4, Mk5, Mk6, Mk7, Mk8, Mk9, Mk10, Mk11, Mk12, Mk13, Mk14, Mk15);
+macro_rules! mk_impl { ($t:ident: $($m:ident),*) => { $(impl $m for $t {})* } }
+#[derive(Clone, Copy, Debug, Default, PartialEq, Eq, PartialOrd, Ord, Hash)]
+pub struct PMall(pub u8);
+mk_impl!(PMall: Mk0, Mk1, Mk2, Mk3, Mk4, Mk5, Mk6, Mk7, Mk8, Mk9, Mk10, Mk11, Mk12, Mk13, Mk14, Mk15);
+#[derive(Clone, Copy, Debug, Default, PartialEq, Eq, PartialOrd, Ord, Hash)]
+pub struct PStd(pub u8);
+#[derive(Clone, Copy, Debug, Default, PartialEq, Eq, PartialOrd, Ord, Hash)]
+pub struct PMx0(pub u8);
+mk_impl!(PMx0: Mk1, Mk2, Mk3, Mk4, Mk5, Mk6, Mk7, Mk8, Mk9, Mk10, Mk11, Mk12, Mk13, Mk14, Mk15);
+#[derive(Clone, Copy, Debug, Default, PartialEq, Eq, PartialOrd, Ord, Hash)]
+pub struct PMx1(pub u8);
+mk_impl!(PMx1: Mk0, Mk2, Mk3, Mk4, Mk5, Mk6, Mk7, Mk8, Mk9, Mk10, Mk11, Mk12, Mk13, Mk14, Mk15);
+#[derive(Clone, Copy, Debug, Default, PartialEq, Eq, PartialOrd, Ord, Hash)]
+pub struct PMx2(pub u8);
+mk_impl!(PMx2: Mk0, Mk1, Mk3, Mk4, Mk5, Mk6, Mk7, Mk8, Mk9, Mk10, Mk11, Mk12, Mk13, Mk14, Mk15);
+#[derive(Clone, Copy, Debug, Default, PartialEq, Eq, PartialOrd, Ord, Hash)]
+pub struct PMx3(pub u8);
+mk_impl!(PMx3: Mk0, Mk1, Mk2, Mk4, Mk5, Mk6, Mk7, Mk8, Mk9, Mk10, Mk11, Mk12, Mk13, Mk14, Mk15);
+#[derive(Clone, Copy, Debug, Default, PartialEq, Eq, PartialOrd, Ord, Hash)]
+pub struct PMx4(pub u8);
+mk_impl!(PMx4: Mk0, Mk1, Mk2, Mk3, Mk5, Mk6, Mk7, Mk8, Mk9, Mk10, Mk11, Mk12, Mk13, Mk14, Mk15);
+#[derive(Clone, Copy, Debug, Default, PartialEq, Eq, PartialOrd, Ord, Hash)]
+pub struct PMx5(pub u8);
+mk_impl!(PMx5: Mk0, Mk1, Mk2, Mk3, Mk4, Mk6, Mk7, Mk8, Mk9, Mk10, Mk11, Mk12, Mk13, Mk14, Mk15);
+#[derive(Clone, Copy, Debug, Default, PartialEq, Eq, PartialOrd, Ord, Hash)]
+pub struct PMx6(pub u8);
+mk_impl!(PMx6: Mk0, Mk1, Mk2, Mk3, Mk4, Mk5, Mk7, Mk8, Mk9, Mk10, Mk11, Mk12, Mk13, Mk14, Mk15);
+#[derive(Clone, Copy, Debug, Default, PartialEq, Eq, PartialOrd, Ord, Hash)]
+pub struct PMx7(pub u8);
+mk_impl!(PMx7: Mk0, Mk1, Mk2, Mk3, Mk4, Mk5, Mk6, Mk8, Mk9, Mk10, Mk11, Mk12, Mk13, Mk14, Mk15);
+#[derive(Clone, Copy, Debug, Default, PartialEq, Eq, PartialOrd, Ord, Hash)]
+pub struct PMx8(pub u8);
+mk_impl!(PMx8: Mk0, Mk1, Mk2, Mk3, Mk4, Mk5, Mk6, Mk7, Mk9, Mk10, Mk11, Mk12, Mk13, Mk14, Mk15);
+#[derive(Clone, Copy, Debug, Default, PartialEq, Eq, PartialOrd, Ord, Hash)]
+pub struct PMx9(pub u8);
+mk_impl!(PMx9: Mk0, Mk1, Mk2, Mk3, Mk4, Mk5, Mk6, Mk7, Mk8, Mk10, Mk11, Mk12, Mk13, Mk14, Mk15);
+#[derive(Clone, Copy, Debug, Default, PartialEq, Eq, PartialOrd, Ord, Hash)]
+pub struct PMx10(pub u8);
+mk_impl!(PMx10: Mk0, Mk1, Mk2, Mk3, Mk4, Mk5, Mk6, Mk7, Mk8, Mk9, Mk11, Mk12, Mk13, Mk14, Mk15);
+#[derive(Clone, Copy, Debug, Default, PartialEq, Eq, PartialOrd, Ord, Hash)]
+pub struct PMx11(pub u8);
+mk_impl!(PMx11: Mk0, Mk1, Mk2, Mk3, Mk4, Mk5, Mk6, Mk7, Mk8, Mk9, Mk10, Mk12, Mk13, Mk14, Mk15);
+#[derive(Clone, Copy, Debug, Default, PartialEq, Eq, PartialOrd, Ord, Hash)]
+pub struct PMx12(pub u8);
+mk_impl!(PMx12: Mk0, Mk1, Mk2, Mk3, Mk4, Mk5, Mk6, Mk7, Mk8, Mk9, Mk10, Mk11, Mk13, Mk14, Mk15);
+#[derive(Clone, Copy, Debug, Default, PartialEq, Eq, PartialOrd, Ord, Hash)]
+pub struct PMx13(pub u8);
+mk_impl!(PMx13: Mk0, Mk1, Mk2, Mk3, Mk4, Mk5, Mk6, Mk7, Mk8, Mk9, Mk10, Mk11, Mk12, Mk14, Mk15);
+#[derive(Clone, Copy, Debug, Default, PartialEq, Eq, PartialOrd, Ord, Hash)]
+pub struct PMx14(pub u8);
+mk_impl!(PMx14: Mk0, Mk1, Mk2, Mk3, Mk4, Mk5, Mk6, Mk7, Mk8, Mk9, Mk10, Mk11, Mk12, Mk13, Mk15);
+#[derive(Clone, Copy, Debug, Default, PartialEq, Eq, PartialOrd, Ord, Hash)]
+pub struct PMx15(pub u8);
+mk_impl!(PMx15: Mk0, Mk1, Mk2, Mk3, Mk4, Mk5, Mk6, Mk7, Mk8, Mk9, Mk10, Mk11, Mk12, Mk13, Mk14);
+
+/// addressable constants for reference-typed fields
+pub static ZZ: [u8; 4] = [7, 9, 11, 13];
